@@ -52,6 +52,14 @@ pub fn all_props() -> Vec<Box<dyn framework::Prop>> {
             parts: vec![Box::new(h), Box::new(props_mem::c17_mem())],
         }));
     }
+    // C11 = task-poll orderings (Engine V) + the check-then-insert window under threads (Engine T)
+    if let Some(pos) = hyb.iter().position(|p| p.id == "C11") {
+        let h = hyb.remove(pos);
+        v.push(Box::new(framework::Composite {
+            id: "C11",
+            parts: vec![Box::new(h), Box::new(props_c02::c11_t())],
+        }));
+    }
     for p in hyb {
         v.push(Box::new(p));
     }
